@@ -222,7 +222,9 @@ impl Params {
 #[derive(Clone, Debug)]
 enum AV {
     Sc(V),
-    Rec(SId, Vec<Option<V>>),
+    /// keys actually written in the anchored mapping (what a merge can take from it), and the
+    /// complete effective value (defaults filled in) when the mapping can stand for the struct
+    Rec(SId, Vec<Option<V>>, Option<Vec<V>>),
     List(SId, Vec<V>),
 }
 
@@ -403,7 +405,7 @@ impl<'a> Gen<'a> {
         self.decoys.push((join(path, fd.rust), class));
     }
 
-    fn finish_map(&mut self, entries: Vec<(Node, Node)>, sid: SId, vals: &[V], anchor: u8) -> Node {
+    fn finish_map(&mut self, entries: Vec<(Node, Node)>, sid: SId, vals: &[V], written: &[bool], anchor: u8) -> Node {
         // anchor: 0 never, 1 maybe, 2 always
         let mut node = Node::map(entries);
         if self.ch(self.pr.p_flow) {
@@ -412,7 +414,8 @@ impl<'a> Gen<'a> {
         if anchor == 2 || (anchor == 1 && self.ch(self.pr.p_anchor)) {
             let name = self.fresh();
             node = node.with_anchor(&name);
-            self.anchors.push((name, AV::Rec(sid, vals.iter().cloned().map(Some).collect())));
+            let keys = vals.iter().zip(written).map(|(v, w)| w.then(|| v.clone())).collect();
+            self.anchors.push((name, AV::Rec(sid, keys, Some(vals.to_vec()))));
         }
         node
     }
@@ -436,10 +439,7 @@ impl<'a> Gen<'a> {
                     .iter()
                     .enumerate()
                     .filter(|(_, (_, av))| match av {
-                        AV::Rec(s, vs) if *s == sid && vs.iter().all(|x| x.is_some()) => {
-                            let v = V::Rec(sid, vs.iter().map(|x| x.clone().unwrap()).collect());
-                            self.compat(path, Ty::Rec(sid), &v)
-                        }
+                        AV::Rec(s, _, Some(full)) if *s == sid => self.compat(path, Ty::Rec(sid), &V::Rec(sid, full.clone())),
                         _ => false,
                     })
                     .map(|(i, _)| i)
@@ -447,8 +447,8 @@ impl<'a> Gen<'a> {
                 if !cands.is_empty() {
                     let i = *self.rng.pick(&cands);
                     let (name, av) = self.anchors[i].clone();
-                    let AV::Rec(_, vs) = av else { unreachable!() };
-                    let v = V::Rec(sid, vs.into_iter().map(|x| x.unwrap()).collect());
+                    let AV::Rec(_, _, Some(full)) = av else { unreachable!() };
+                    let v = V::Rec(sid, full);
                     self.mark(path, Ty::Rec(sid), &v, Arr::StructAlias);
                     return (Node::alias(&name), v);
                 }
@@ -457,7 +457,7 @@ impl<'a> Gen<'a> {
                     .anchors
                     .iter()
                     .enumerate()
-                    .filter(|(_, (_, av))| matches!(av, AV::Rec(s, _) if *s == sid))
+                    .filter(|(_, (_, av))| matches!(av, AV::Rec(s, _, _) if *s == sid))
                     .map(|(i, _)| i)
                     .collect();
                 if !cands.is_empty() {
@@ -467,18 +467,20 @@ impl<'a> Gen<'a> {
         }
         // direct
         let mut vals: Vec<Option<V>> = vec![None; fds.len()];
+        let mut written = vec![false; fds.len()];
         let mut entries = Vec::new();
         for i in self.order(fds.len()) {
             let fd = &fds[i];
             let (n, v) = self.gen_field(fd, &join(path, fd.rust), false);
             if let Some(n) = n {
                 entries.push((Node::plain(fd.yaml), n));
+                written[i] = true;
             }
             vals[i] = Some(v);
         }
         self.maybe_decoy(&mut entries, sid, path);
         let vals: Vec<V> = vals.into_iter().map(|x| x.unwrap()).collect();
-        let node = self.finish_map(entries, sid, &vals, anchor);
+        let node = self.finish_map(entries, sid, &vals, &written, anchor);
         (node, V::Rec(sid, vals))
     }
 
@@ -495,7 +497,7 @@ impl<'a> Gen<'a> {
             .iter()
             .map(|&i| {
                 let (n, av) = self.anchors[i].clone();
-                let AV::Rec(_, vs) = av else { unreachable!() };
+                let AV::Rec(_, vs, _) = av else { unreachable!() };
                 (n, vs)
             })
             .collect();
@@ -529,7 +531,9 @@ impl<'a> Gen<'a> {
         entries.insert(pos, (Node::plain("<<"), mval));
         self.maybe_decoy(&mut entries, sid, path);
         let vals: Vec<V> = vals.into_iter().map(|x| x.unwrap()).collect();
-        let node = self.finish_map(entries, sid, &vals, anchor);
+        // every field is either written explicitly or present in a merge source
+        let written = vec![true; fds.len()];
+        let node = self.finish_map(entries, sid, &vals, &written, anchor);
         (node, V::Rec(sid, vals))
     }
 
@@ -626,7 +630,7 @@ impl<'a> Gen<'a> {
         self.pr.p_decoy = 0;
         let mut entries: Vec<(Node, Node)> = Vec::new();
         let mut k = 0usize;
-        let mut key = |k: &mut usize| {
+        let key = |k: &mut usize| {
             *k += 1;
             Node::plain(&format!("d{}", *k))
         };
@@ -661,7 +665,7 @@ impl<'a> Gen<'a> {
                 let leaf_node = Node::fmap(vec![(Node::plain("tag"), sn(&sv)), (Node::plain("weight"), sn(&iv))]).with_anchor("kl");
                 entries.push((key(&mut k), leaf_node));
                 let leaf_v = V::Rec(SId::Leaf, vec![sv.clone(), iv.clone()]);
-                self.anchors.push(("kl".into(), AV::Rec(SId::Leaf, vec![Some(sv.clone()), Some(iv.clone())])));
+                self.anchors.push(("kl".into(), AV::Rec(SId::Leaf, vec![Some(sv.clone()), Some(iv.clone())], Some(vec![sv.clone(), iv.clone()]))));
                 // inner (block, leaf-node through alias)
                 let inner_node = Node::map(vec![
                     (Node::plain("host-name"), sn(&sv)),
@@ -670,11 +674,11 @@ impl<'a> Gen<'a> {
                 ])
                 .with_anchor("ki");
                 entries.push((key(&mut k), inner_node));
-                self.anchors.push(("ki".into(), AV::Rec(SId::Inner, vec![Some(sv.clone()), Some(iv.clone()), Some(leaf_v)])));
+                self.anchors.push(("ki".into(), AV::Rec(SId::Inner, vec![Some(sv.clone()), Some(iv.clone()), Some(leaf_v.clone())], Some(vec![sv.clone(), iv.clone(), leaf_v]))));
                 // partial item (no subItems)
                 let item_node = Node::fmap(vec![(Node::plain("itemName"), sn(&sv)), (Node::plain("qty"), sn(&iv))]).with_anchor("kt");
                 entries.push((key(&mut k), item_node));
-                self.anchors.push(("kt".into(), AV::Rec(SId::Item, vec![Some(sv), Some(iv), None])));
+                self.anchors.push(("kt".into(), AV::Rec(SId::Item, vec![Some(sv), Some(iv), None], None)));
             }
             Kit::Random => {
                 let n = self.rng.range(1, 6);
@@ -694,7 +698,7 @@ impl<'a> Gen<'a> {
                             let name = self.fresh();
                             let mut vs = vec![None, None];
                             vs[which] = Some(v);
-                            self.anchors.push((name.clone(), AV::Rec(SId::Leaf, vs)));
+                            self.anchors.push((name.clone(), AV::Rec(SId::Leaf, vs, None)));
                             let mut m = Node::map(vec![(Node::plain(fd.yaml), n)]);
                             if self.rng.bool() {
                                 m.set_flow(true);
